@@ -106,7 +106,7 @@ theorem lastWrite_cixp {v : FatVolume} {s s' : FS} {b : Nat} {p : Block} (hw : s
   (CrashData.single_write_crash hw hd).mono fun _ hd' => hd'.elim (fun e => .inl (e ▸ h0)) .inr
 
 /-- **`write_new_directory_entry` with its crash points.** -/
-theorem writeNew_cixp {fs : FS} (hM : MedX fs.vol fs.dev.disk files gh X) (hR : RawOKX fs.vol.fatType fs.dev.disk files) (hU : ∀ c, isUsed fs.vol fs.dev.disk c → P c)
+theorem writeNew_cixp {fs : FS} (hM : MedX fs.vol fs.dev.disk files gh X) (hR : RawOKX fs.vol.fatType fs.dev.disk files) (hUG : ∀ c, c ∈ gh.G.flatten → P c)
     (hn : NoFault fs) (hc : Coherent fs) {dc : Nat}
     (hv : ValidDir gh.dirs dc) (name : Bytes) (hname : name.length = 11) (att fc : Nat) (now : Timestamp) :
     ∃ r fs', writeNewDirectoryEntry dc name att fc now fs = (r, fs') ∧ NoFault fs' ∧ Coherent fs' ∧
@@ -119,7 +119,7 @@ theorem writeNew_cixp {fs : FS} (hM : MedX fs.vol fs.dev.disk files gh X) (hR : 
           DirClustersInit v1 P fs'.dev.disk { vol := v1, G := G1, dirs := gh.dirs } ∧
           CrashAll (fun d => CIXP P fs.vol d ∨ d = fs'.dev.disk) fs fs')) := by
   obtain ⟨hh, hcase⟩ := dir_walk_facts hM hv
-  have hci0 := cixp_of_medX hM hR (dirInit_of_used hM hU)
+  have hci0 := cixp_of_medX hM hR (dirInit_of_G hM hUG)
   have hgh : MedX fs.vol fs.dev.disk files { vol := fs.vol, G := gh.G, dirs := gh.dirs } X :=
     ⟨hM.blocksOK, hM.geom, hM.hint, hM.owns, hM.tree, hM.fileOK⟩
   -- the outcome when a free slot exists in the present slot list
@@ -139,7 +139,7 @@ theorem writeNew_cixp {fs : FS} (hM : MedX fs.vol fs.dev.disk files gh X) (hR : 
     obtain ⟨pre, post, hsp, hpre, hlen, hfree⟩ := free_split hM hh hfs
     exact ⟨fs.vol, fs.dev.disk, gh.G, pre, post, slot,
       ⟨SameGeom.refl _, hgh, fun _ _ => rfl, fun _ _ _ _ _ _ => rfl, hsp, hpre, hlen, hfree, hv', rfl, fun _ _ _ _ => rfl⟩,
-      rfl, hd', hR, dirInit_of_all fun x hx c hc => hU c (dirCluster_used hM hx hc), lastWrite_cixp hw' hd' hci0⟩
+      rfl, hd', hR, dirInit_of_all fun x hx c hc => hUG c (dirCluster_memG hM hx hc), lastWrite_cixp hw' hd' hci0⟩
   rcases hcase with ⟨hdc, h16, hsl⟩ | ⟨hkind, hnf, cs, hchain, hstart, hch, hlen, hsl⟩
   · -- the FAT16 fixed root
     subst hdc
@@ -165,7 +165,6 @@ theorem writeNew_cixp {fs : FS} (hM : MedX fs.vol fs.dev.disk files gh X) (hR : 
         writeNew_chain_full_eq fs dc cs name att fc now hn hc hkind hch (by omega) (by rw [← hsl]; exact hfs)
       have hM1 : MedX s1.vol s1.dev.disk files gh X := by rw [hd1, hv1]; exact hM
       have hR1 : RawOKX s1.vol.fatType s1.dev.disk files := by rw [hd1, hv1]; exact hR
-      have hU1 : ∀ c, isUsed s1.vol s1.dev.disk c → P c := by rw [hd1, hv1]; exact hU
       -- the last cluster of the chain
       have hne : (Listing.startCluster fs.vol dc :: cs) ≠ [] := by simp
       obtain ⟨pre, hpre⟩ : ∃ pre, Listing.startCluster fs.vol dc :: cs =
@@ -196,7 +195,7 @@ theorem writeNew_cixp {fs : FS} (hM : MedX fs.vol fs.dev.disk files gh X) (hR : 
             DirClustersInit s2.vol P d { vol := s2.vol, G := G1, dirs := gh.dirs } := by
           rw [← hv1]
           exact fun d hI => dirInit_sameGeom hsg (grow_dirInit
-            (fun x hx c' hc' => hU1 c' (dirCluster_used hM1 hx hc')) hf1 (by rw [hch1, hcs1]) hchains1
+            (fun x hx c' hc' => hUG c' (dirCluster_memG hM1 hx hc')) hf1 (by rw [hch1, hcs1]) hchains1
             (fun x hx hfx hne => dirHead_inj hM1 hx hh hfx hf1 hne) hI)
         have hpos1 : 0 < fs.vol.blocksPerCluster := hM.geom.bpc_pos
         have hD2 : DirClustersInit s2.vol P s2.dev.disk { vol := s2.vol, G := G1, dirs := gh.dirs } :=
@@ -205,7 +204,7 @@ theorem writeNew_cixp {fs : FS} (hM : MedX fs.vol fs.dev.disk files gh X) (hR : 
           have := (cixp_of_medX hM2 hR2 hD2).sameGeom hsg.symm
           rwa [hv1] at this
         have c12 : CrashAll (CIXP P fs.vol) s1 s2 := by
-          have := alloc_cixp hM1 hR1 (dirInit_of_used hM1 hU1) hn1 hc1 (fun q hq => by cases hq; exact hpE) ha (by rw [hv1]; exact hci2)
+          have := alloc_cixp hM1 hR1 (dirInit_of_G hM1 hUG) hn1 hc1 (fun q hq => by cases hq; exact hpE) ha (by rw [hv1]; exact hci2)
           rwa [hv1] at this
         rw [hv1, hd1] at hsl1 hoth hkeep
         rw [hv1] at hsg hzero hcR hchains1
